@@ -548,6 +548,19 @@ class Paths:
                     return ("const", int(gmap[n[1]]))
                 except (ValueError, TypeError):
                     return None
+            if n[0] == "call" and n[2] and any(a in gmap for a in n[2]):
+                # a call inside a generic helper that mentions the helper's type parameters: instantiate them, and let
+                # From / Into select the impl they resolve to at this instantiation
+                ng = tuple(gmap.get(a, a) for a in n[2])
+                path = n[1]
+                if path in ("core::convert::From::from", "core::convert::Into::into") and len(ng) >= 2:
+                    tgt, src = (ng[0], ng[1]) if path.endswith("From::from") else (ng[1], ng[0])
+                    if tgt == src and len(n[3]) == 1:
+                        return n[3][0]      # impl<T> From<T> for T
+                    h = self._from_impl(src, tgt)
+                    if h is not None:
+                        path = h.path
+                return ("call", path, ng) + tuple(n[3:])
             return None
         return [self._rebind(s, r) for s in self.of(g, depth + 1)]
 
